@@ -42,7 +42,8 @@ def gql_str(s: str) -> str:
 
 
 class Gen:
-    def __init__(self, rng, plain=False, size=1.0, nonprintable=False, nonfinite=None, printable=False):
+    def __init__(self, rng, plain=False, size=1.0, nonprintable=False, nonfinite=None, printable=False,
+                 unicode_all=False):
         self.r = rng
         self.plain = plain
         self.size = size
@@ -51,6 +52,8 @@ class Gen:
         # graphql-core cannot print (ast_from_value) a list/object default of a custom scalar: keep such
         # defaults out of schemas that must be printed (SDL target) or introspected (remote source)
         self.printable = printable
+        # non-ASCII text in every string position (descriptions, reasons, urls, defaults), always present
+        self.unicode_all = unicode_all
         self.feat: dict[str, int] = {}
         self.scalars: list[str] = []
         self.enums: dict[str, list[str]] = {}
@@ -67,6 +70,8 @@ class Gen:
         self.feat[k] = self.feat.get(k, 0) + 1
 
     def chance(self, p):
+        if self.unicode_all and 0.15 < p < 0.6:
+            p = 0.9                      # descriptions, deprecations, defaults, specifiedBy: almost always there
         return self.r.random() < p
 
     def n(self, lo, hi):
@@ -87,6 +92,9 @@ class Gen:
         if self.nonprintable and self.chance(0.3):
             self.f("str:nonprintable-unicode")
             return self.r.choice(NONPRINTABLE)
+        if self.unicode_all:
+            self.f("str:nonascii")
+            return self.r.choice(["été", "日本語", "\U0001f600 smile", "naïve “quotes”", "Ünïcödé", "ß", "русский", "a’b"])
         s = self.r.choice(STRINGS)
         if self.chance(0.15):
             s = s + self.r.choice(STRINGS)
@@ -279,7 +287,7 @@ class Gen:
             self.scalars.append(nm)
             s = self.desc() + f"scalar {nm}"
             if not self.plain and self.chance(0.5):
-                s += f" @specifiedBy(url: {gql_str('https://example.com/' + nm)})"
+                s += f" @specifiedBy(url: {gql_str('https://example.com/' + nm + ('/é日本' if self.unicode_all else ''))})"
                 self.f("specifiedBy")
             parts.append(s)
         for _ in range(self.n(1, 3)):
